@@ -3,10 +3,13 @@ package main
 // Suite c17: missing-node detection is exact and sync repair restores the trie.
 //
 //	new <mem|pndb> <version> | ver <n> | ins <path> <hex> | del <path>     build a trie (as in c01)
+//	bulk <n> <seed>      n Inserts of pseudo-random 8-nibble paths / 2-byte values (64-bit LCG, same on the model side)
 //	snap                 freeze the trie: "ok <root|-> <n>"  (n = nodes reachable from the root, pre-order)
 //	rm <i,j,...>         damaged copy of the store without the nodes with these pre-order indexes; an index i names the
 //	                     non-root node 1 + (i mod (n-1)); with n <= 1 nothing is removed   -> "ok <sorted removed keys|->"
 //	rmsub <i>            as rm, removing the node and everything below it
+//	rmleaves <k>         as rm, removing the first k leaf nodes in pre-order (every one of them is then an absent node
+//	                     reachable through present ones) -> "ok <count> <SHA3 of the sorted keys>"
 //	has                  HasMissingNodes on a fresh trie over the damaged store -> true | false | <error>
 //	miss                 GetAllMissingNodes -> "ok <sorted key set|->" | <error>
 //	get <path>           GetNodeValueRaw   -> "ok <hex>" | notpresent | nodenotfound | ...
@@ -520,7 +523,7 @@ func runC17(ops []string) CaseResult {
 			res.Fails = append(res.Fails, "harness: op before new: "+op)
 			continue
 		}
-		if st != nil && !st.snapped && f[0] != "ver" && f[0] != "ins" && f[0] != "del" && f[0] != "snap" {
+		if st != nil && !st.snapped && f[0] != "ver" && f[0] != "ins" && f[0] != "del" && f[0] != "snap" && f[0] != "bulk" {
 			res.Outs = append(res.Outs, "bad-op")
 			res.Fails = append(res.Fails, "harness: op before snap: "+op)
 			continue
@@ -577,6 +580,41 @@ func runC17(ops []string) CaseResult {
 					delete(st.content, path)
 				}
 			}
+		case "bulk":
+			n, _ := strconv.Atoi(f[1])
+			x, _ := strconv.ParseUint(f[2], 10, 64)
+			out = guard(func() string {
+				var k util.Key
+				for j := 0; j < n; j++ {
+					x = x*6364136223846793005 + 1442695040888963407
+					path := fmt.Sprintf("%08x", uint32(x>>32))
+					val := []byte{byte(0x41 + (x>>8)%26), byte(x)}
+					var err error
+					if k, err = st.mpt.Insert([]byte(path), mkVal(append([]byte(nil), val...))); err != nil {
+						return errKind(err)
+					}
+					st.content[path] = val
+				}
+				return "ok " + rootStr(k)
+			})
+			tags["bulk"] = true
+		case "rmleaves":
+			k, _ := strconv.Atoi(f[1])
+			var idxs []int
+			for j, e := range st.order {
+				if j > 0 && e.n.kind == 'L' && len(idxs) < k {
+					idxs = append(idxs, j)
+				}
+			}
+			st.cur, st.curDir, st.curRaw, st.removed = st.damage(st.kind, idxs)
+			st.curMpt = newMPT(st.cur, st.version, st.root)
+			ks := append([]string(nil), st.removed...)
+			sort.Strings(ks)
+			out = fmt.Sprintf("ok %d %s", len(ks), hx(sha3sum([]byte(strings.Join(ks, "")))))
+			if len(st.removed) > 0 {
+				removals++
+			}
+			tags[fmt.Sprintf("absent-frontier:%d", len(ks))] = true
 		case "snap":
 			st.root = append([]byte(nil), st.mpt.GetRoot()...)
 			if st.dir != "" {
@@ -650,7 +688,11 @@ func runC17(ops []string) CaseResult {
 				if ms != "ok" {
 					fail("GetAllMissingNodes failed: %s", ms)
 				} else if fmtKeys(keys) != fmtKeys(absent) {
-					fail("GetAllMissingNodes = %s, absent nodes reachable through present ones = %s", fmtKeys(keys), fmtKeys(absent))
+					if len(keys)+len(absent) > 40 {
+						fail("GetAllMissingNodes reports %d keys, %d absent nodes are reachable through present ones", len(keys), len(absent))
+					} else {
+						fail("GetAllMissingNodes = %s, absent nodes reachable through present ones = %s", fmtKeys(keys), fmtKeys(absent))
+					}
 				}
 				if len(absent) > 0 && len(absent) < len(st.removed) {
 					tags["missing-below-missing"] = true
@@ -900,6 +942,9 @@ func genC17(r *rand.Rand, tier string, idx int) []string {
 	if idx%48 == 13 {
 		return genC17Comb(r, kind, ver)
 	}
+	if idx%250 == 77 {
+		return genC17Bulk(r, kind, ver)
+	}
 	ops := []string{fmt.Sprintf("new %s %d", kind, ver)}
 	alpha := pathAlphabets[r.Intn(len(pathAlphabets))]
 	small := idx%4 == 3 // small tries so that `all` applies
@@ -1040,6 +1085,22 @@ func genComb(r *rand.Rand, levels int) []string {
 	return keys
 }
 
+// genC17Bulk: a LARGE trie (several hundred to a few thousand nodes); the numbers of absent reachable nodes straddle the
+// size constants of the anchored code (BatchSize = 256: 255 / 256 / 257 / 512 / 513) and go up to every leaf.
+func genC17Bulk(r *rand.Rand, kind string, ver int64) []string {
+	ops := []string{fmt.Sprintf("new %s %d", kind, ver), fmt.Sprintf("bulk %d %d", 300+r.Intn(300), r.Int63())}
+	ver += 2
+	ops = append(ops, fmt.Sprintf("ver %d", ver), fmt.Sprintf("bulk %d %d", 300+r.Intn(700), r.Int63()), "snap", "has", "miss")
+	counts := []int{255, 256, 257, 512, 513, 100000}
+	r.Shuffle(len(counts), func(i, j int) { counts[i], counts[j] = counts[j], counts[i] })
+	for _, k := range counts[:4] {
+		ops = append(ops, fmt.Sprintf("rmleaves %d", k), "has", "miss")
+		ops = append(ops, fmt.Sprintf("repair %d %s", []int64{0, ver, ver + 3}[r.Intn(3)], donorShapes[r.Intn(len(donorShapes))]), "has", "miss")
+	}
+	ops = append(ops, "rmsub 1", "has", "miss", "restore mergestate lmp", "has", "miss", "iter")
+	return ops
+}
+
 // genC17Comb: a trie more than 32 node levels deep (33..63), built at several versions; nodes near the bottom (and
 // random ones) are removed.
 func genC17Comb(r *rand.Rand, kind string, ver int64) []string {
@@ -1081,7 +1142,7 @@ func genC17Comb(r *rand.Rand, kind string, ver int64) []string {
 func init() {
 	register(&Suite{
 		Name: "c17",
-		Rule: "random multi-version tries on memory and persistent stores; removal of every single non-root node (sweep1), every subtree (sweepsub), random scattered sets (rm/rmsub groups) and, for tries of <= 10 nodes, every subset (all); HasMissingNodes / GetAllMissingNodes / lookups / iteration compared with an independent walk of the stored bytes; every 48th case a comb-shaped trie of 64-nibble keys with 33..63 node levels (branches and extensions) in one chain; repair by MergeDB from a donor store (which also holds unrelated nodes) at versions below every origin, between origins, at and above the trie version; non-trivial = at least one non-empty removal and one repair",
+		Rule: "random multi-version tries on memory and persistent stores; removal of every single non-root node (sweep1), every subtree (sweepsub), random scattered sets (rm/rmsub groups) and, for tries of <= 10 nodes, every subset (all); HasMissingNodes / GetAllMissingNodes / lookups / iteration compared with an independent walk of the stored bytes; every 250th case a large trie (600..1600 bulk inserts) with 255/256/257/512/513/all leaves absent; every 48th case a comb-shaped trie of 64-nibble keys with 33..63 node levels (branches and extensions) in one chain; repair by MergeDB from a donor store (which also holds unrelated nodes) at versions below every origin, between origins, at and above the trie version; non-trivial = at least one non-empty removal and one repair",
 		Gen:  genC17,
 		Run:  runC17,
 		Exhaustive: func(tier string, emit func([]string)) {
